@@ -1162,6 +1162,17 @@ func (fv *FV) collectMods(n ast.Node, ms *modSet, depth int) {
 
 // ---------- for / range ----------
 
+func (fv *FV) loopLets(st *State, ord int, pos token.Pos) {
+	if fv.contract == nil || !fv.fn.top {
+		return
+	}
+	for _, l := range fv.contract.LoopLets {
+		if l.Loop == ord {
+			fv.specNames[l.Name] = fv.evalSpec(fv.specEnvAt(st, pos), l.Expr)
+		}
+	}
+}
+
 func (fv *FV) loopClauses(ord int) (invs []Clause, dec *Clause) {
 	if fv.contract == nil || !fv.fn.top {
 		return nil, nil
@@ -1281,6 +1292,7 @@ func (fv *FV) execFor(st *State, s *ast.ForStmt, label string) *State {
 		st = fv.execStmt(st, s.Init, "")
 	}
 	invs, dec := fv.loopClauses(ord)
+	fv.loopLets(st, ord, s.Body.Lbrace)
 	// init
 	for _, c := range invs {
 		env := fv.specEnvAt(st, s.Body.Lbrace)
@@ -1394,6 +1406,7 @@ func (fv *FV) execRange(st *State, s *ast.RangeStmt, label string) *State {
 	}
 	xv = fv.name("rng", xv)
 	invs, dec := fv.loopClauses(ord)
+	fv.loopLets(st, ord, s.Body.Lbrace)
 	_ = dec
 	// the loop counter: spec name idx<ord>, also bound to key var if present
 	bindIter := func(bst *State, i string) {
@@ -1520,6 +1533,7 @@ func (fv *FV) execRangeMap(st *State, s *ast.RangeStmt, label string, ord int) *
 	ks := fv.sess.sortOf(mt.Key())
 	visSort := fmt.Sprintf("(Array %s Bool)", ks)
 	invs, _ := fv.loopClauses(ord)
+	fv.loopLets(st, ord, s.Body.Lbrace)
 	emptyVis := fmt.Sprintf("((as const %s) false)", visSort)
 	visName := fmt.Sprintf("visited%d", ord)
 	bindVis := func(v string) {
